@@ -40,7 +40,7 @@ ANCHORS = ['verify:get_file_metadata', 'recursiveloader:ManifestLoader.verify_an
            'recursiveloader:ManifestRecursiveLoader.load_unregistered_manifests',
            'util:throw_exception', 'compression:open_potentially_compressed_path']
 REQUIRED = ['verify:get_file_metadata', 'faults_fired', 'fp:verify', 'fp:verify-k',
-            'fp:update', 'fp:verify-mtime', 'fp:update-inc', 'fp:cli-k', 'fp:cli-sub', 'priv_runs', 'strace_runs',
+            'fp:update', 'fp:verify-mtime', 'fp:update-inc', 'fp:cli-k', 'fp:cli-sub', 'fp:verify-j2', 'fp:update-j3', 'fp:cli-j2', 'priv_runs', 'strace_runs',
             'fp:create-fresh']
 ASSUMPTIONS = ['single faults (one injected error per execution)',
                'ENOENT, ENXIO, EOPNOTSUPP are excluded (statement / device-only, U9)',
@@ -52,8 +52,10 @@ ASSUMPTIONS = ['single faults (one injected error per execution)',
 
 ERRNOS = [errno.EACCES, errno.EPERM, errno.EIO, errno.ENOMEM, errno.ELOOP,
           errno.ENOTDIR, errno.EMFILE, errno.ENFILE, errno.ESTALE, errno.EOVERFLOW]
-OPS = ['verify', 'verify-k', 'update', 'verify-mtime', 'update-inc']
-CLI_OPS = ['cli-k', 'cli-sub']      # through gemato.cli.main (discovery included)
+OPS = ['verify', 'verify-k', 'update', 'verify-mtime', 'update-inc',
+       # the same with more than one job requested (max_jobs / --jobs)
+       'verify-j2', 'update-j3']
+CLI_OPS = ['cli-k', 'cli-sub', 'cli-j2']      # through gemato.cli.main (discovery included)
 NTREES = {'quick': 24, 'thorough': 600}
 
 
@@ -106,6 +108,8 @@ def run_op(root, op, sub=None):
             argv = ['gemato', 'verify', '-P']
             if op == 'cli-k':
                 argv += ['-k', root]
+            elif op == 'cli-j2':
+                argv += ['-j', '2', root]
             else:
                 argv += [os.path.join(root, sub)]
             # (as the installed command runs: informational messages are formatted
@@ -130,6 +134,10 @@ def run_op(root, op, sub=None):
             m = ManifestRecursiveLoader(os.path.join(root, 'Manifest'),
                                         verify_openpgp=False)
             return ('ret', m.assert_directory_verifies(''))
+        if op == 'verify-j2':
+            m = ManifestRecursiveLoader(os.path.join(root, 'Manifest'),
+                                        verify_openpgp=False, max_jobs=2)
+            return ('ret', m.assert_directory_verifies(''))
         if op == 'verify-k':
             m = ManifestRecursiveLoader(os.path.join(root, 'Manifest'),
                                         verify_openpgp=False)
@@ -141,7 +149,8 @@ def run_op(root, op, sub=None):
                                         verify_openpgp=False)
             return ('ret', m.assert_directory_verifies('', last_mtime=4e9))
         m = ManifestRecursiveLoader(os.path.join(root, 'Manifest'),
-                                    verify_openpgp=False, hashes=['SHA256', 'MD5'])
+                                    verify_openpgp=False, hashes=['SHA256', 'MD5'],
+                                    max_jobs=3 if op == 'update-j3' else None)
         if op == 'update-inc':
             m.update_entries_for_directory('', last_mtime=4e9)
         else:
